@@ -534,7 +534,7 @@ func TestVerifC25Replay(t *testing.T) {
 	}
 	sweepEvery := 40
 	if !verifh.Quick() {
-		sweepEvery = 10
+		sweepEvery = 25
 	}
 	nw := 8
 	var mu sync.Mutex
